@@ -35,7 +35,8 @@ SeekPrefixGE(view, ek) == ek \in DOMAIN view
 (***************************************************************************)
 (* updateContext (command.go)                                              *)
 (***************************************************************************)
-NewCtx(db) == [db |-> db, ops |-> <<>>, indexed |-> FALSE, index |-> 0, li |-> NoLI, bad |-> FALSE]
+\* li: leaderIndex; pli: prevLeaderIndex (the leader index set by the entries of this update before the current one)
+NewCtx(db) == [db |-> db, ops |-> <<>>, indexed |-> FALSE, index |-> 0, li |-> NoLI, pli |-> NoLI, bad |-> FALSE]
 
 EnsureIndexed(ctx) == [ctx EXCEPT !.indexed = TRUE]
 AddOp(ctx, o) == [ctx EXCEPT !.ops = Append(@, o)]
@@ -153,8 +154,9 @@ HandleTxn(ctx, c) ==
 (***************************************************************************)
 (* command.go wrapCommand / handle                                         *)
 (***************************************************************************)
-RECURSIVE Handle(_, _)
-Handle(ctx, c) ==
+\* oli: the leader index carried by the command itself (entry's for a top-level command, sli for one in a sequence)
+RECURSIVE Handle(_, _, _)
+Handle(ctx, c, oli) ==
   CASE c.t = "PUT"   -> LET x == HandlePut(ctx, c) IN [ctx |-> x.ctx, val |-> 1, r |-> x.r]
     [] c.t = "DEL"   -> LET x == HandleDelete(ctx, c) IN [ctx |-> x.ctx, val |-> 1, r |-> x.r]
     [] c.t = "PUTB"  ->
@@ -168,11 +170,16 @@ Handle(ctx, c) ==
     [] c.t = "TXN"   -> LET x == HandleTxn(ctx, c) IN
                         [ctx |-> x.ctx, val |-> IF x.ok THEN 1 ELSE 0, r |-> x.r]
     [] c.t = "SEQ"   ->
-         LET F[i \in 0..Len(c.cmds)] ==
-               IF i = 0 THEN [ctx |-> ctx, r |-> <<>>]
-               ELSE LET y == Handle(F[i - 1].ctx, c.cmds[i])
+         \* commandSequence.handle: recordedLeaderIndex() reads the DB (not the batch) unless an earlier entry of this
+         \* update carried a leader index; commands at or below it are skipped; the index is not moved backwards
+         LET rec  == IF ctx.pli # NoLI THEN ctx.pli ELSE ReadIndex(ctx.db, SysLeaderIndex)
+             ctx0 == IF oli # NoLI /\ oli < rec THEN [ctx EXCEPT !.li = rec] ELSE ctx
+             keep == SelectSeq(c.cmds, LAMBDA s : SubLI(s) = NoLI \/ SubLI(s) > rec)
+             F[i \in 0..Len(keep)] ==
+               IF i = 0 THEN [ctx |-> ctx0, r |-> <<>>]
+               ELSE LET y == Handle(F[i - 1].ctx, keep[i], SubLI(keep[i]))
                     IN [ctx |-> y.ctx, r |-> F[i - 1].r \o y.r]
-         IN [ctx |-> F[Len(c.cmds)].ctx, val |-> 1, r |-> F[Len(c.cmds)].r]
+         IN [ctx |-> F[Len(keep)].ctx, val |-> 1, r |-> F[Len(keep)].r]
     [] c.t = "DUMMY" -> [ctx |-> ctx, val |-> 1, r |-> <<>>]
 
 (***************************************************************************)
@@ -185,10 +192,11 @@ RECURSIVE UpdateLoop(_, _)
 UpdateLoop(ctx, es) ==
   IF es = <<>> THEN [ctx |-> ctx, res |-> <<>>]
   ELSE LET e  == Head(es)
-           c1 == [ctx EXCEPT !.index = e.i, !.li = IF e.li # NoLI THEN e.li ELSE @]
-           h  == Handle(c1, e.c)
-           \* Result.Data (revision + responses) only when there are responses
-           re == [val |-> h.val, data |-> h.r # <<>>, rev |-> IF h.r # <<>> THEN e.i ELSE 0, rs |-> h.r]
+           c1 == [ctx EXCEPT !.index = e.i, !.pli = ctx.li, !.li = IF e.li # NoLI THEN e.li ELSE @]
+           h  == Handle(c1, e.c, e.li)
+           \* Result.Data (revision + responses) when there are responses, and always for a transaction
+           hd == h.r # <<>> \/ e.c.t = "TXN"
+           re == [val |-> h.val, data |-> hd, rev |-> IF hd THEN e.i ELSE 0, rs |-> h.r]
            t  == UpdateLoop(h.ctx, Tail(es))
        IN [ctx |-> t.ctx, res |-> <<re>> \o t.res]
 
